@@ -1,5 +1,5 @@
 """Check configuration for C13 (loaded by bin/props.py)."""
-from props_common import STD_ASSUME
+from props_common import STD_ASSUME, KNOBS_ENGINES, KNOBS_ASSUME
 
 CFG = {
     "pkg": "banyand/internal/verif/props/c13",
@@ -31,6 +31,7 @@ CFG = {
                         "fault.sampler_error", "fault.sampler_panic", "fault.sampler_wrong_length", "fault.sampler_timeout", "reach.sampler_link_ran_after_deadline",
                         "reach.held_goroutine_released", "reach.released_out_of_usual_order", "reach.write_while_merge_goroutine_held"],
     "det_n": {"quick": 24, "thorough": 64},
+    "knobs": KNOBS_ENGINES,
     "gates": [
         {"files": ["banyand/trace/merger.go", "banyand/trace/tstable.go", "pkg/run/goroutine.go"], "mode": "A"},
     ],
@@ -41,7 +42,7 @@ CFG = {
         "stub": ["metadata registry (simmeta)", "gRPC transport", "clock (testing/synctest)", "samplers are Go values registered in process instead of plugin .so files (pipeline_loader.go / sdk.OpenSampler not exercised)",
                  "TracePipelineConfig reconciliation from the group resource (reconcilePipeline) not exercised"],
     },
-    "assumptions": STD_ASSUME + [
+    "assumptions": STD_ASSUME + [KNOBS_ASSUME,
         "under samplers the timestamps of one trace's spans lie within merge_grace of each other (docs/design/post-trace-pipeline.md 7.1: 'the engine assumes fragments of one trace do not arrive farther apart than this grace'); "
         "wider traces can be dropped fragment-wise by design and are not generated",
         "a span acknowledged after a sampler's Decide call started counts as a late arrival: it may be the only survivor of its trace",
